@@ -312,6 +312,13 @@ def engine(pid, spec, tier, ws, out, log_dir, known):
                 npaths += n
                 e2.functions.append("RpIdVerifier::%s (MIR, with its closures)" % fnname)
             e2.get_solver()
+        if "dup_keys" in todo:
+            tf = e2.mir_of("passkey-types")
+            f, n = C.check_duplicate_detection(tf)
+            findings += f
+            npaths += n
+            e2.functions.append("serde_workaround!-generated visit_map of every CTAP2 message + set_if_none (MIR)")
+            e2.get_solver()
         if "from_slice" in todo:
             tf = e2.mir_of("passkey-types")
             cands = [n for n in tf if "attestation_fmt::<impl" in n and n.endswith(">::from_slice")]
